@@ -2380,6 +2380,8 @@ class Interp:
 
 def _walk_own(node):
     """ast.walk that does not enter nested function / class bodies"""
+    if isinstance(node, (ast.FunctionDef, ast.AsyncFunctionDef, ast.ClassDef)):
+        return
     stack = [node]
     while stack:
         n = stack.pop()
